@@ -1073,6 +1073,18 @@ class Interp:
                         el = join(el, it)
                     if el == BOT:
                         el = v[2]
+                    if i + 1 == len(path) and iv is not None and iv[0] == 'I' and iv[4] is not None and el != BOT and el[0] == 'I' \
+                            and len(v[3]) >= 2 and all(x[0] == 'I' and x[1] == x[2] for x in v[3]):
+                        # lookup in a constant table with a symbolic index: keep  table[index]  as a term
+                        ints = tuple(x[1] for x in v[3])
+                        tid = self.table_ids.get(ints)
+                        if tid is None:
+                            tid = len(self.table_ids) + 1
+                            self.table_ids[ints] = tid
+                            self.tables[tid] = ints
+                        tt = mkterm('tbl', T('c', tid), iv[4])
+                        if tt is not None:
+                            el = self.reg(mk_int(el[1], el[2], el[3], tt))
                 _, out = self._nav_read(st, el, path, i + 1)
                 return v, out
             return v, ('T', None, None)
@@ -2600,6 +2612,8 @@ class Engine(Interp, InterpOps, CallMixin, ZoneMixin):
         self.loop_info = {}
         self.unroll = 40
         self.layout_hook = None
+        self.table_ids = {}         # constant integer tables met under a symbolic index -> id
+        self.tables = {}
         self.bits_override = None   # (bit position, width) -> forced value of a primitive deku read, or None
         self.keep_rf = None         # predicate: refinements of these terms survive state GC
         self.const_checks = []
